@@ -32,6 +32,24 @@ pub fn gen_cases(rng: &mut Rng, spec: &GenSpec) -> Vec<Case> {
             n = n.min(60);
         }
         let w32 = rng.below(2) == 0;
+        if spec.count >= 400 && n >= 3 && rng.below(25) == 0 {
+            // `nearmax`: f32 entries as large as the UNCHANGED update formulas can take for this method and n
+            // without an intermediate overflow (headroom 16): a rewrite that needs more headroom — a product
+            // formed before a division, a sum of n^2 terms — overflows here and nowhere else
+            let nn = n as f64;
+            let top = f32::MAX as f64;
+            let dmax = match method {
+                Method::Ward => (top / (16.0 * nn * nn)).sqrt(),
+                Method::Centroid => (top / (16.0 * nn)).sqrt(),
+                Method::Median => (top / 16.0).sqrt(),
+                Method::Average => top / (16.0 * nn),
+                Method::Weighted => top / 16.0,
+                _ => top / 2.0,
+            };
+            let vals: Vec<f64> = (0..gen::tri(n)).map(|_| (0.5 + 0.5 * rng.unit()) * dmax).collect();
+            out.push(Case { alg, method, w32: true, n, bits: vals.iter().map(|&x| f64_to_bits(true, x)).collect(), class: "nearmax" });
+            continue;
+        }
         let vals = gen::matrix(rng, class, n);
         let bits = gen::to_bits(class, w32, &vals);
         out.push(Case { alg, method, w32, n, bits, class });
